@@ -33,7 +33,8 @@ ASSUMPTIONS = [
     "rollback targets are operation boundaries (the plan positions merge_plan records as frame start points), not positions "
     "inside the log entries of one compound operation",
     "order inside one slot list / limiter list / per-owner blocker list is not part of the compared state (the statement lists "
-    "occupancy, blockers, counts, bindings, exclusions, restrictions); de-duplication uses the ordered form",
+    "occupancy, blockers, counts, bindings, exclusions, restrictions), and neither is the order of consecutive blocker-drop "
+    "entries in the operation log (it follows the per-owner list order; such drops commute); de-duplication uses the ordered form",
     "a forward operation that raises although its precondition holds ends that branch and is counted (class forward-raised), "
     "it is not judged",
 ]
@@ -243,6 +244,18 @@ def snapshot(w, ordered):
             log.append((name, lab(op.choices), lab(op.pkg), bool(op.force), lab(op.old_pkg), lab(op.old_choices), bool(op.force_old)))
         else:
             log.append((name, lab(op.choices), lab(op.pkg), bool(op.force)))
+    if not ordered:
+        # consecutive blocker drops (the group one remove/replace writes) commute; their order follows the per-owner list order
+        norm, run = [], []
+        for e in log:
+            if e[0] == "decref_forward_block_op":
+                run.append(e)
+            else:
+                norm.extend(sorted(run))
+                run = []
+                norm.append(e)
+        norm.extend(sorted(run))
+        log = norm
     return {
         "slots": slots,
         "limiters": lims,
